@@ -6,6 +6,7 @@ import (
 	"io"
 	"net"
 	"os"
+	"strings"
 	"sync"
 	"sync/atomic"
 	"time"
@@ -21,7 +22,10 @@ type Behaviour struct {
 	H       int    // height of the lie / checkpoint index / message count before the disconnect / fork depth
 	N       int    // lighterFork: branch length
 	Variant string // liarHeaders: pow|unlinked ; noServices: cf|witness ; liarCFHeaders: inconsistent|consistent ; liarCFCheckpt: only|consistent
-	Tx      string // reaction to a transaction inv: "" (ignore) | accept | reject-nogetdata | reject | confirm-after-release
+	Tx      string // reaction to a transaction inv: "" (ignore) | accept | reject-nogetdata | reject | confirm-after-release | reject-with
+	// reject-with: ask for the transaction, then reject it with this code and reason (%TX% = its id)
+	RejCode   wire.RejectCode
+	RejReason string
 }
 
 func (b Behaviour) String() string {
@@ -506,7 +510,7 @@ func (s *session) handle(m wire.Message) {
 				rj := wire.NewMsgReject(wire.CmdTx, wire.RejectInsufficientFee, "insufficient fee")
 				rj.Hash = iv.Hash
 				s.send(rj)
-			case "reject":
+			case "reject", "reject-with":
 				gd := wire.NewMsgGetData()
 				gd.AddInvVect(iv)
 				s.send(gd)
@@ -537,6 +541,12 @@ func (s *session) handle(m wire.Message) {
 		if p.B.Tx == "confirm-after-release" && atomic.AddInt32(&p.GotTx, 1) > 1 {
 			rj := wire.NewMsgReject(wire.CmdTx, wire.RejectDuplicate, "transaction already exists")
 			rj.Hash = msg.TxHash()
+			s.send(rj)
+		}
+		if p.B.Tx == "reject-with" {
+			h := msg.TxHash()
+			rj := wire.NewMsgReject(wire.CmdTx, p.B.RejCode, strings.ReplaceAll(p.B.RejReason, "%TX%", h.String()))
+			rj.Hash = h
 			s.send(rj)
 		}
 		if p.B.Tx == "reject" {
